@@ -33,6 +33,18 @@ def monitor(case, out):
                 cur = v
         k = op["op"]
         prev_live = live_of(prev)
+        if k == "race_compact":
+            # concurrency probe: I fresh keys written while another goroutine deletes a scratch key and compacts
+            for j in range(op["i"]):
+                spec[H("w-%d" % j)] = H("v%d" % j)
+            spec.pop(H("scratch"), None)
+            live = live_of(cur)
+            if live != spec:
+                lost = [bytes.fromhex(x).decode() for x in spec if x not in live][:5]
+                wrong = [bytes.fromhex(x).decode() for x in live if spec.get(x) != live[x]][:5]
+                return {"step": i, "why": "after %d writes concurrent with compactions the live state is not the last-write-wins map: lost %r, wrong or extra %r"
+                                          % (op["i"], lost, wrong), "sig": "lww-concurrent"}
+            continue
         if k == "upsert":
             changed = spec.get(op["k"]) != op["v"]
             spec[op["k"]] = op["v"]
@@ -101,6 +113,18 @@ def run(ctx):
         f = monitor(c, o)
         if f:
             mon_fail.append((c, f))
+    # concurrency probes (monitor only): local writes racing CompactLocal
+    ccases = [{"id": "conc%d" % i, "nodes": [{"id": H("a"), "addr": H("10.0.0.1:7000")}],
+               "ops": [{"op": "upsert", "n": 0, "k": H("k"), "v": H("1")}, {"op": "race_compact", "n": 0, "i": it},
+                       {"op": "upsert", "n": 0, "k": H("k"), "v": H("2")}]}
+              for i, it in enumerate([3000, 20000] if ctx["tier"] == "quick" else [3000, 20000, 50000, 100000])]
+    couts = run_world(binary, ctx["wd"], ccases, tag="conc")
+    for c, o in zip(ccases, couts):
+        f = {"step": 0, "why": "panic/timeout: " + o["panic"], "sig": "panic"} if o.get("panic") else monitor(c, o)
+        if f:
+            violations.append({"what": "C17 monitor (writes concurrent with compaction): %s" % f["why"], "found_input": True,
+                               "replay_obj": {"property": ID, "kind": "monitor-conc", "signature": f["sig"], "why": f["why"], "case": c}})
+            break
     # correspondence (only on histories that ran to completion)
     okc = [(c, o) for c, o in zip(cases, outs) if not o.get("panic")]
     dis = correspondence(ID, ctx["wd"], [c for c, _ in okc], [o for _, o in okc])
